@@ -371,6 +371,39 @@ fn arabic_joining(buffer: &mut hb_buffer_t) {
     }
 }
 
+// ---- verification hooks (compiled only with `--cfg rustybuzz_verif`; add-only wrappers around the
+// private items above, used by the external correspondence harness of property C11).
+#[cfg(rustybuzz_verif)]
+pub fn verif_arabic_joining(buffer: &mut hb_buffer_t) -> alloc::vec::Vec<u8> {
+    arabic_joining(buffer);
+    (0..buffer.len)
+        .map(|i| buffer.info[i].arabic_shaping_action())
+        .collect()
+}
+
+#[cfg(rustybuzz_verif)]
+pub fn verif_get_joining_type(u: char) -> u8 {
+    get_joining_type(u, u.general_category()) as u8
+}
+
+#[cfg(rustybuzz_verif)]
+pub fn verif_action_feature(action: u8) -> Option<[u8; 4]> {
+    ARABIC_FEATURES.get(action as usize).map(|t| t.to_bytes())
+}
+
+#[cfg(rustybuzz_verif)]
+pub fn verif_setup_masks(
+    mask_array: [hb_mask_t; ARABIC_FEATURES.len() + 1],
+    script: Option<Script>,
+    buffer: &mut hb_buffer_t,
+) {
+    let plan = arabic_shape_plan_t {
+        mask_array,
+        has_stch: false,
+    };
+    setup_masks_inner(&plan, script, buffer)
+}
+
 fn mongolian_variation_selectors(buffer: &mut hb_buffer_t) {
     // Copy arabic_shaping_action() from base to Mongolian variation selectors.
     let len = buffer.len;
